@@ -53,6 +53,13 @@ Theorem C18_collect_all :
     Forall2 (reports true cls) (errors_of args) (helper false x).
 Proof. exact construct_all_reports. Qed.
 
+(* the collect-all loop with exceptions other than TypeError / ValueError (which it does not catch) is
+   the model the harness compares with the code; it is [construct] whenever every error is caught *)
+Theorem C18_construct_model_agrees :
+  forall dumps ff cls args,
+    all_caught args = true -> construct_u dumps ff cls args = construct dumps ff cls (map forget args).
+Proof. exact construct_u_caught. Qed.
+
 Theorem C18_accepts_iff_no_invalid :
   forall dumps ff cls args, construct dumps ff cls args = None <-> errors_of args = [].
 Proof. exact construct_accepts_iff. Qed.
@@ -195,6 +202,7 @@ Print Assumptions C18_template_ok.
 Print Assumptions C18_templates_cover.
 Print Assumptions C18_prefix_site.
 Print Assumptions C18_collect_all.
+Print Assumptions C18_construct_model_agrees.
 Print Assumptions C18_accepts_iff_no_invalid.
 Print Assumptions C18_fail_fast_member.
 Print Assumptions C18_helper_total.
